@@ -1,5 +1,6 @@
 import Model.KeepAlive
 import Model.KeepAliveSpec
+import Model.KeepAliveX
 /-!
 Line protocol of engine `keepalive`.
 
@@ -161,15 +162,66 @@ def runOps (s : St) (toks : List String) : Option (St × List String) :=
     | some (s', r) => some (s', acc.2 ++ [s!"{r}/{s'.appended.length}"])
     | none => none) (s, [])
 
+/-! Extended model (`Model/KeepAliveX.lean`): a history that contains one of
+  `gdp:<i>` drop slot guard `i` whose value's `close()` panics (contained) · `rep:<i>:<v>` replace slot field `i` by a
+  fresh `Slot::new(v)` / `LazySlot::default()` (its guard, if alive, becomes the newest orphan) · `odelay` `delay_flush`
+  on the newest orphan (consumes a free flush guard) · `ogm:<v>` mutate through it · `ogd` drop it · `ogdp` drop it with a
+  panicking `close()`
+is run on `stepX`; every other history on the base `step` (on which the theorems with the refinement proof are stated).
+Base operations inside an extended history are the base macro ops on the base component, except that "a free flush
+guard" excludes those held by orphans. -/
+
+def isXTok (tok : String) : Bool :=
+  match tok.splitOn ":" with
+  | "gdp" :: _ | "rep" :: _ | "odelay" :: _ | "ogm" :: _ | "ogd" :: _ | "ogdp" :: _ => true
+  | _ => false
+
+def runEvsX (x : StX) (evs : List EvX) : Option StX := evs.foldlM (fun x e => stepX x e) x
+
+def finX (x : StX) (evs : List EvX) : Option (StX × String) :=
+  (runEvsX x evs).map fun x' => ({ x' with b := drain fuel x'.b }, "-")
+
+def oneOpX (x : StX) (tok : String) : Option (StX × String) :=
+  let last := x.orph.length - 1
+  match tok.splitOn ":" with
+  | ["gdp", i] => i.toNat?.bind fun i => finX x [.gSendFail i, .base (.gRelease i)]
+  | ["rep", i, v] => match i.toNat?, v.toNat? with
+    | some i, some v => finX x [.slotReplace i v]
+    | _, _ => none
+  | ["odelay"] => if x.orph.isEmpty then none else finX x [.oDelay last]
+  | ["ogm", v] => if x.orph.isEmpty then none else v.toNat?.bind fun v => finX x [.oGmut last v]
+  | ["ogd"] => if x.orph.isEmpty then none else finX x [.oSend last, .oRelease last]
+  | ["ogdp"] => if x.orph.isEmpty then none else finX x [.oSendFail last, .oRelease last]
+  | f =>
+    let needs := match f with
+      | ["dfg"] => true
+      | ["open", _, "w", _] => true
+      | ["delay", _] => true
+      | _ => false
+    if needs && !freeFG x then none
+    else (oneOp x.b tok).map fun (b', r) => ({ x with b := b' }, r)
+
+def runOpsX (x : StX) (toks : List String) : Option (StX × List String) :=
+  toks.foldlM (fun (acc : StX × List String) tok =>
+    match oneOpX acc.1 tok with
+    | some (x', r) => some (x', acc.2 ++ [s!"{r}/{x'.b.appended.length}"])
+    | none => none) (x, [])
+
 def handleOps (slotsS : String) (toks : List String) : String :=
   match parseSlots slotsS with
   | none => "bad-op"
   | some slots =>
-    match runOps (init slots) toks with
-    | none => "bad-op"
-    | some (s, outs) =>
+    let fin (s : St) (outs : List String) : String :=
       let apps := if s.appended.isEmpty then "-" else ";".intercalate (s.appended.map showApp)
       " ".intercalate outs ++ " | " ++ apps
+    if toks.any isXTok then
+      match runOpsX (initX slots) toks with
+      | none => "bad-op"
+      | some (x, outs) => fin x.b outs
+    else
+      match runOps (init slots) toks with
+      | none => "bad-op"
+      | some (s, outs) => fin s outs
 
 def handleTrace (nslotsS : String) (toks : List String) : String :=
   match nslotsS.toNat?, toks.mapM Spec.parseObs with
